@@ -328,8 +328,10 @@ static void Array_Push(var self, var obj) {
   struct Array* a = self;
   a->nitems++;
   Array_Reserve_More(a);
-  Array_Alloc(a, a->nitems-1);
-  assign(Array_Item(a, a->nitems-1), obj);
+  a->nitems--;
+  Array_Alloc(a, a->nitems);
+  assign(Array_Item(a, a->nitems), obj);
+  a->nitems++;
 }
 
 static void Array_Push_At(var self, var obj, var key) {
